@@ -11,7 +11,13 @@ def run(tier, seed):
     fams = [('alias', alias, alias.role), ('arith', arith, None), ('seq', seq, None), ('equality', equality, None), ('heap', heap, None)]
     if tier == 'thorough':
         fams += [('objects', objects, None), ('control', control, None), ('types', types, None), ('destructure', destructure, None), ('calls', calls, None), ('errors', errors, None), ('render', render, None), ('scopes', scopes, None)]
-    # (quick: the remaining families carry the `panic` / `hang` aspects in their own properties' checks)
+    else:
+        # quick: of the operand-type matrix only the plain binary operators (every operator x 8x8 operand kinds); the remaining families
+        # carry the `panic` / `hang` aspects in their own properties' checks
+        class _TypesBin:
+            @staticmethod
+            def templates(tier, seed=0): return [t for t in types.templates(tier, seed) if t['name'].startswith('bin-') and not t['name'].startswith('bin-empty-')]
+        fams += [('types-binops', _TypesBin, None)]
     n = 0
     for name, mod, role in fams:
         ts = mod.templates(tier, seed) if name != 'arith' else mod.templates(tier)
